@@ -53,10 +53,10 @@ func init() {
 }
 
 var (
-	c20Eq  = prepareImpl("x == y")
-	c20Ne  = prepareImpl("x != y")
-	c20Con = prepareImpl("contains([x], y)")
-	c20Co2 = prepareImpl("contains(l, y)")
+	c20Eq  = lazyExpr{"x == y"}
+	c20Ne  = lazyExpr{"x != y"}
+	c20Con = lazyExpr{"contains([x], y)"}
+	c20Co2 = lazyExpr{"contains(l, y)"}
 )
 
 func c20Pair(x, y doc) any {
@@ -152,12 +152,12 @@ func c20Algebra(r *core.Run) {
 
 // truthiness and the operand-returning operators
 var (
-	c20Not  = prepareImpl("!x")
-	c20And  = prepareImpl("x && y")
-	c20Or   = prepareImpl("x || y")
-	c20Filt = prepareImpl("l[?@]")
-	c20FltY = prepareImpl("o[?x].y")
-	c20Flt2 = prepareImpl("o[?x && !y] | length(@)")
+	c20Not  = lazyExpr{"!x"}
+	c20And  = lazyExpr{"x && y"}
+	c20Or   = lazyExpr{"x || y"}
+	c20Filt = lazyExpr{"l[?@]"}
+	c20FltY = lazyExpr{"o[?x].y"}
+	c20Flt2 = lazyExpr{"o[?x && !y] | length(@)"}
 )
 
 func sameRaw(a core.Obs, raw any) bool {
@@ -354,7 +354,7 @@ func c20Floats(r *core.Run) {
 					yj = json.Number(new(big.Rat).SetFloat64(fs[j]).FloatString(80))
 				}
 				d = map[string]any{"x": xi, "y": yj, "l": []any{"filler", xi, nil}}
-				expr := c20Eq
+				expr := prepareImplCached(c20Eq.Text)
 				if carry == "in-arrays" {
 					expr = prepareImplCached("[x, [x]] == [y, [y]]")
 				}
@@ -394,3 +394,9 @@ func c20Floats(r *core.Run) {
 		}
 	}
 }
+
+// lazyExpr compiles on first use (nothing of the library may run while the package initialises: C07 observes the
+// very first call of a process).
+type lazyExpr struct{ Text string }
+
+func (l lazyExpr) run(raw any) core.Obs { return prepareImplCached(l.Text).run(raw) }
